@@ -6,7 +6,8 @@ ops: ["enter", o] ["exit", o] ["new", g] ["next", g] ["close", g] ["drop", g] ["
 overlays: o1 = 'gen > g > a' (requires the generator as an ancestor), o2 = 'g > a', o3 = 'drive > g > a' (the function the
 driver's code runs in between "drive" and "undrive")
 generators: gen(2) objects of the instrumented generator function of lifeworld
-mode overlay: BaseOverlay + Immediate handlers; mode probe: ptera.probing objects entered / left by hand
+mode overlay: BaseOverlay + Immediate handlers; mode probe: ptera.probing objects entered / left by hand;
+mode api: ONE Overlay instance, every block is base.tapping(selector) (a fork of the instance: blocks must not leak into it)
 """
 import gc
 import json
@@ -14,7 +15,7 @@ import sys
 
 from harness.worlds import lifeworld as LW
 from ptera.interpret import Immediate
-from ptera.overlay import BaseOverlay, HandlerCollection, tooled
+from ptera.overlay import BaseOverlay, HandlerCollection, Overlay, tooled
 from ptera.probe import probing
 from ptera.selector import select
 
@@ -36,6 +37,29 @@ def run_case(case):
     if mode == "overlay":
         hs = {o: Immediate(sels[o], trigger=lambda d, o=o: recv[o].append(d["a"].value)) for o in TEXT}
         ovl = {o: BaseOverlay(hs[o]) for o in TEXT}
+    elif mode == "api":
+        base = Overlay()
+
+        class Dest(list):
+            def __init__(self, o):
+                self.o = o
+
+            def append(self, d):
+                recv[self.o].append(d["a"])
+
+        class Lazy:
+            """the with-block `with base.tapping(sel, dest): ...`, made when it is entered"""
+            def __init__(self, o):
+                self.o = o
+
+            def __enter__(self):
+                self.cm = base.tapping(sels[self.o], dest=Dest(self.o))
+                return self.cm.__enter__()
+
+            def __exit__(self, *a):
+                cm, self.cm = self.cm, None
+                return cm.__exit__(*a)
+        ovl = {o: Lazy(o) for o in TEXT}
     else:
         ovl = {}
         for o, t in TEXT.items():
@@ -56,8 +80,8 @@ def run_case(case):
                 if mode == "overlay" and (x is hs[o] or getattr(x, "_trigger", 0) is hs[o]._trigger):
                     return o[1]
             x = getattr(x, "parent", None)
-        if mode == "probe":
-            # probing() builds its own accumulators: identify the overlay by the selector the root pair was made from
+        if mode != "overlay":
+            # probing() / Overlay.tap build their own accumulators: identify the overlay by the selector the root pair was made from
             x = acc
             while getattr(x, "parent", None) is not None:
                 x = x.parent
@@ -141,6 +165,12 @@ def run_case(case):
         try:
             if mode == "probe" and getattr(ovl[o], "_activated", False):
                 ovl[o].__exit__(None, None, None)
+            if mode == "api" and getattr(ovl[o], "cm", None) is not None:
+                # a block still open when the history ends: finish it now (its generator would otherwise do so whenever it is collected)
+                try:
+                    ovl[o].cm.gen.close()
+                except Exception:
+                    pass
         except Exception:
             pass
     HandlerCollection.current.set(None)
